@@ -77,7 +77,7 @@ class C06(Machine):
                    "same_array_topology", "copy_topology",
                    "randomised_perpetrator", "caller_arrays_checked",
                    "shared_object_queries_checked", "both_raised",
-                   "repeat_checked")
+                   "repeat_checked", "static_helper_called")
     real_vs_stub = {"real": ["every memoising class: public constructors and "
                              "all discovered query patterns, the class-level "
                              "LRU with its capacity knob"],
@@ -132,6 +132,14 @@ class C06(Machine):
         # interleave: even per-config counters -> sequences, odd -> pairs,
         # so both layers progress whatever the budget
         k = idx // nconf
+        if k % 8 == 7:
+            from registry.statics import STATICS
+            labels = sorted(STATICS) + ["GeoGrid.region_indices"]
+            return {"property": self.pid, "seed": seed, "run": idx,
+                    "config": {"lru": lru, "layer": "static",
+                               "topology": "static"},
+                    "fn": labels[(k // 8) % len(labels)],
+                    "aseed": a.randrange(10 ** 9), "builds": [], "ops": []}
         tab = self.n_pairs(seed, tier)
         total = sum(n * n for _, n in tab)
         if k % 2 == 1 and (k // 2) * nconf + idx % nconf < total:
@@ -194,6 +202,11 @@ class C06(Machine):
         np.random.seed(run["run"] % (2 ** 31))
         random.seed(run["run"])
         topo = run["config"]["topology"]
+        if topo == "static":
+            try:
+                return self._static(run, R)
+            finally:
+                shutil.rmtree(base, ignore_errors=True)
         SP._capture = []
         SP._share = {} if topo in ("shared_data", "shared_grid") else None
         try:
@@ -370,6 +383,58 @@ class C06(Machine):
             # (iv) the shared object still answers as an isolated one
             check_shared(step, spec, key, rotate=True)
         R.opsig = C.digest_of(repr(sig))
+        return R.as_dict()
+
+    def _static(self, run, R):
+        """A public static helper (or method) called with caller-owned
+        arrays as arguments."""
+        from registry import statics as ST
+        label = run["fn"]
+
+        def build():
+            r = random.Random(run["aseed"])
+            if label == "GeoGrid.region_indices":
+                return ST.geogrid_region_case(r) + (False, True)
+            res, builder, inplace, det = ST.STATICS[label]
+            args, kw = builder(r)
+            return res(), args, kw, inplace, det
+        f, args, kw, inplace, det = build()
+        snaps = [(i, a.tobytes(), a.dtype.str, a.shape)
+                 for i, a in enumerate(args) if isinstance(a, np.ndarray)]
+        np.random.seed(7)
+        random.seed(7)
+        val = C.call(f, *args, **kw)
+        val_s = snap(val)
+        R.steps = 1
+        R.probe("static_helper_called")
+        if isinstance(val, C.Raised):
+            R.probe("static_helper_raised")
+        R.opsig = C.digest_of(repr((label, [(x[2], x[3]) for x in snaps],
+                                    sorted(kw.items(), key=str))))
+        R.nontrivial = bool(snaps)
+        R.trace.append((label, "rnd" if not det else C.digest_of(val_s)))
+        if not inplace:
+            for i, b, dt, sh in snaps:
+                a = args[i]
+                if a.tobytes() != b or a.dtype.str != dt or a.shape != sh:
+                    R.violate(f"{self.pid}|static|{label}|caller-arg:{i}",
+                              f"{label} changed its argument {i} (dtype "
+                              f"{dt}, shape {sh}, "
+                              f"{'C' if a.flags.c_contiguous else 'F'}-"
+                              f"contiguous; kwargs {kw}) without being "
+                              f"documented as in-place",
+                              victim=f"static|{label}|caller-arg:{i}")
+        if det and not isinstance(val, C.Raised):
+            f2, args2, kw2, _, _ = build()
+            np.random.seed(7)
+            random.seed(7)
+            val2 = C.call(f2, *args2, **kw2)
+            ok, why = C.same(val_s, val2, "tight")
+            if not ok:
+                R.violate(f"{self.pid}|static|{label}|repeat",
+                          f"{label} called twice on equal arguments "
+                          f"returned different values: {why}",
+                          victim=f"static|{label}|repeat")
         return R.as_dict()
 
     def _viol(self, R, spec, perp, kind, victim, detail):
